@@ -1,6 +1,7 @@
 package checks
 
 import (
+	"encoding/json"
 	"fmt"
 	"net/http"
 	"os"
@@ -78,6 +79,9 @@ func c10Alphabet() []c10Op {
 		}
 	}
 	ops = append(ops, c10Op{Kind: "restart"}, c10Op{Kind: "tick"})
+	// updates that name jobs without any target (hash 0 = "the job key is present, its list is empty")
+	ops = append(ops, c10Op{Kind: "update", A: []c10T{{0, "j1", ""}}}, c10Op{Kind: "update", A: []c10T{{0, "j1", ""}, {0, "j2", ""}}},
+		c10Op{Kind: "update", A: []c10T{{0, "j2", ""}, {1, "j1", ""}}})
 	// a scrape whose payload spans several parser blocks (about 150 KiB)
 	ops = append(ops, c10Op{Kind: "scrape", Hash: 1, N: 4000})
 	// an update that the sidecar rejects because its update callbacks fail (Prometheus refuses the reload)
@@ -130,6 +134,9 @@ func (m *c10Model) apply(op c10Op, now time.Time) {
 	case "update":
 		n := map[uint64]*c10E{}
 		for _, t := range op.A {
+			if t.Hash == 0 {
+				continue // a job without targets
+			}
 			e := m.Status[t.Hash]
 			if e == nil {
 				e = &c10E{Health: "unknown", Series: c10Est[t.Hash][0], Total: c10Est[t.Hash][1]}
@@ -178,6 +185,9 @@ func (m *c10Model) apply(op c10Op, now time.Time) {
 	case "restart":
 		n := map[uint64]*c10E{}
 		for _, t := range m.Stored {
+			if t.Hash == 0 {
+				continue
+			}
 			n[t.Hash] = &c10E{State: t.State, Health: "unknown", Series: c10Est[t.Hash][0], Total: c10Est[t.Hash][1]}
 		}
 		m.Status = n
@@ -224,8 +234,18 @@ type c10Real struct {
 	inflight func()
 }
 
+// c10Legacy: the store directory holds an old-version targets.json (target 3 of job j2) from the beginning, as on
+// a shard that was upgraded from the old store format (nothing ever removes that file).
+var c10Legacy bool
+
 func c10Start(dir string) *c10Real {
 	os.RemoveAll(dir)
+	if c10Legacy {
+		os.MkdirAll(dir, 0o755)
+		lb, _ := json.Marshal(map[string][]*target.Target{"j2": {{Hash: 3, Series: c10Est[3][0], TotalSeries: c10Est[3][1],
+			Labels: labels.Labels{{Name: "__address__", Value: "t3:80"}, {Name: "__metrics_path__", Value: "/metrics"}, {Name: "__scheme__", Value: "http"}}}}})
+		os.WriteFile(filepath.Join(dir, "targets.json"), lb, 0o644)
+	}
 	r := &c10Real{now: time.Unix(1700000000, 0).UTC(), jobs: map[uint64]string{}, dir: dir}
 	sidecar.VerifSetTimeNow(func() time.Time { return r.now })
 	net := &rig.Targets{}
@@ -257,6 +277,12 @@ func (r *c10Real) apply(op c10Op) error {
 	case "update":
 		ts := map[string][]*target.Target{}
 		for _, t := range op.A {
+			if t.Hash == 0 {
+				if ts[t.Job] == nil {
+					ts[t.Job] = []*target.Target{}
+				}
+				continue
+			}
 			ts[t.Job] = append(ts[t.Job], &target.Target{Hash: t.Hash, Series: c10Est[t.Hash][0], TotalSeries: c10Est[t.Hash][1], TargetState: t.State,
 				Labels: labels.Labels{{Name: "__address__", Value: fmt.Sprintf("t%d:80", t.Hash)}, {Name: "__metrics_path__", Value: "/metrics"}, {Name: "__scheme__", Value: "http"}}})
 			r.jobs[t.Hash] = t.Job
@@ -347,8 +373,12 @@ type c10Replay struct {
 func c10Run(dir string, ops []c10Op) (c10View, c10View, string, error) {
 	real := c10Start(dir)
 	m := &c10Model{Status: map[uint64]*c10E{}}
-	// process start: Load() of an empty directory performs an empty update
-	m.apply(c10Op{Kind: "update"}, real.now)
+	// process start: Load() of an empty directory performs an empty update (of the old-version file: that assignment)
+	if c10Legacy {
+		m.apply(c10Op{Kind: "update", A: []c10T{{3, "j2", ""}}}, real.now)
+	} else {
+		m.apply(c10Op{Kind: "update"}, real.now)
+	}
 	for _, op := range ops {
 		if err := real.apply(op); err != nil {
 			return c10View{}, c10View{}, "", fmt.Errorf("op %v: %v", op, err)
@@ -443,7 +473,11 @@ func init() {
 		}
 		dir := filepath.Join(os.Getenv("VERIF_SCRATCH"), fmt.Sprintf("c10-%d", c.Part))
 		defer os.RemoveAll(dir)
-		for policy := 0; policy < 2; policy++ {
+		for pass := 0; pass < 3; pass++ {
+			// passes 0 and 1: the two map-order policies on a fresh directory; pass 2: a directory with a leftover
+			// old-version file
+			policy := pass % 2
+			c10Legacy = pass == 2
 			vrt.OrderPolicy = policy
 			seen := map[string]bool{}
 			type node struct{ ops []c10Op }
@@ -504,10 +538,11 @@ func init() {
 				}
 				first = false
 				frontier = next
-				r.Counters[fmt.Sprintf("policy%d_depth%d_new_states", policy, d)] = int64(len(next))
+				r.Counters[fmt.Sprintf("pass%d_depth%d_new_states", pass, d)] = int64(len(next))
 			}
 		}
 		vrt.OrderPolicy = 0
+		c10Legacy = false
 		r.Extra = map[string]interface{}{"max_depth": depth, "alphabet": len(alpha)}
 	})
 }
